@@ -7,6 +7,8 @@ import (
 	"sort"
 	"strings"
 	"time"
+
+	"github.com/free5gc/go-upf/internal/report"
 )
 
 // VerifTick injects a ticker expiry for `period` (what the ticker goroutine posts).
@@ -74,4 +76,9 @@ func VerifClear(s *Server) {
 		s.DelPeriodReportTimer(p.seid, p.urr)
 	}
 	VerifSync(s)
+}
+
+// VerifQuery runs the query callback the driver registered (Handle)
+func VerifQuery(s *Server, m map[uint64][]uint32) (map[uint64][]report.USAReport, error) {
+	return s.queryURR(m)
 }
